@@ -53,6 +53,20 @@ def gen(ctx):
                 sc = {"cw": [5, 100], "sw": [7, 50], "c2s": {"mode": "script", "list": [k]}, "s2c": {"mode": "script", "list": [k]},
                       "rbuf": [4096], "lockstep": True, "quiesce_each": True}
                 scen.append({"id": "split-%s-%s-%d-%d" % (c, s, pad, k), "kind": "session", "client": c, "server": s, "cpad": pad, "spad": pad, "script": sc})
+    # the peer speaks first: the tail of a handshake (padding) and the first application bytes in ONE segment, per
+    # direction (the sending application writes as soon as its own handshake is done)
+    k = 0
+    for c, s in combos:
+        for pad in ((0, 100, 1023, 1024, 1025, 8192) if not quick else (0, 100, 1025, 8192)):
+            for hold in (("c2s",), ("s2c",)):
+                sc = {"cw": [65, 1448], "sw": [33, 4096], "c2s": {"mode": rng.choice(["whole", "whole", "fixed"]), "k": 1448, "seed": k},
+                      "s2c": {"mode": rng.choice(["whole", "whole", "fixed"]), "k": 1448, "seed": k + 1},
+                      "rbuf": rng.choice([[4096], [7, 1, 4096]]), "lockstep": False, "quiesce_each": False}
+                for d in hold:
+                    sc[d]["hold_first_write"] = True
+                scen.append({"id": "first-%s-%s-%d-%s" % (c, s, pad, "+".join(hold)), "kind": "session", "client": c, "server": s,
+                             "cpad": pad, "spad": pad, "script": sc})
+                k += 2
     # rejection: every magic bit, padlen boundaries
     j = 0
     for victim in ("client", "server"):
